@@ -143,6 +143,10 @@ RECURSIVE RunMachine(_, _, _, _)
 RunMachine(ch, s, limit, cap) ==
   IF s > limit THEN [out |-> "StepLimitExceeded", fin |-> ch[s + 1].st, steps |-> s]
   ELSE IF s + 1 > Len(ch) THEN [out |-> "undetermined", fin |-> ch[1].st, steps |-> s]
+  \* the limits in force are those of the current state: once a step has set the time limit to 0, no time is left
+  \* (a limit that is 0 from the start is left to the one-sided rules of JudgeRun)
+  ELSE IF s >= 1 /\ ch[s + 1].st.cfg.time_limit = 0 /\ ch[s].st.cfg.time_limit # 0
+       THEN [out |-> "TimeLimitExceeded", fin |-> ch[s + 1].st, steps |-> s]
   \* the run ends with NoErrors when the next step finds EXEC empty (decided on the recorded STATE, not on the value the
   \* single steps returned: that value is judged by JudgeStep)
   ELSE IF ch[s + 1].st.exec = <<>> THEN [out |-> "NoErrors", fin |-> ch[s + 1].st, steps |-> s]
@@ -166,7 +170,7 @@ JudgeRun(e, ch, tainted) ==
        IN \* time: only one-sided, causally sound inequalities (never a wall-clock equality)
           IF e.ret = "TimeLimitExceeded"
           \* (the recorded milliseconds are truncated, so "more than the limit elapsed" shows as >=)
-          THEN (IF e.elapsed_ms >= cfg.time_limit /\ \E k \in 1..Len(c2) : e.post = c2[k].st
+          THEN (IF \E k \in 1..Len(c2) : e.post = c2[k].st /\ e.elapsed_ms >= c2[k].st.cfg.time_limit
                 THEN Blank("ok", "run:time")
                 ELSE Verdict("mismatch", "run", "C02", <<"outcome">>,
                              "TimeLimitExceeded although only " \o ToString(e.elapsed_ms) \o " ms elapsed, or the state left behind is not a state of the single-step chain"))
